@@ -1771,6 +1771,24 @@ pub fn gen_program(rng: &mut Rng, cfg: &GenCfg) -> GenProgram {
             }
         }
     }
+    // two different syntax nodes of one kind that start at the same position are different values
+    if cfg.fault_pct > 0 && g.rng.chance(cfg.fault_pct, 400) {
+        let q = *g.rng.pick(&[
+            "(binary_operator left: (binary_operator) @inner) @outer",
+            "(attribute object: (attribute) @inner) @outer",
+            "(call function: (call) @inner) @outer",
+        ]);
+        let n = GExpr::var("fault_sn");
+        let first = if g.rng.chance(1, 2) { ("outer", "inner") } else { ("inner", "outer") };
+        let stmts = vec![
+            stmt(StmtKind::Node(GVar::u("fault_sn"))),
+            stmt(StmtKind::AttrNode(n.clone(), vec![GAttr { name: "fault".into(), value: Some(GExpr::cap(first.0)) }])),
+            stmt(StmtKind::AttrNode(n, vec![GAttr { name: "fault".into(), value: Some(GExpr::cap(first.1)) }])),
+        ];
+        file.items.push(Item::Stanza(GStanza { query: q.into(), pool: None, stmts, loc: Loc::default() }));
+        file.number();
+        fault = Some(fault.map(|f| format!("{}+nested_same_kind_syntax_nodes_conflict", f)).unwrap_or_else(|| "nested_same_kind_syntax_nodes_conflict".to_string()));
+    }
     GenProgram {
         file,
         globals,
@@ -1817,14 +1835,22 @@ pub fn inject_runtime_fault(rng: &mut Rng, file: &mut GFile) -> Option<String> {
             vec![stmt(StmtKind::Let(GVar::u("fault_v"), GExpr::call("plus", vec![GExpr::Int(1), GExpr::str("two")])))],
             "type_error_in_call",
         ),
-        4 => (
-            vec![
-                stmt(StmtKind::Node(GVar::u("fault_a"))),
-                stmt(StmtKind::Node(GVar::u("fault_b"))),
-                stmt(StmtKind::AttrEdge(GExpr::var("fault_a"), GExpr::var("fault_b"), vec![GAttr { name: "fault".into(), value: None }])),
-            ],
-            "undefined_edge",
-        ),
+        4 => {
+            // the source may have edges to nodes created before and after the missing sink
+            let mut v = vec![stmt(StmtKind::Node(GVar::u("fault_0"))), stmt(StmtKind::Node(GVar::u("fault_a"))), stmt(StmtKind::Node(GVar::u("fault_b"))), stmt(StmtKind::Node(GVar::u("fault_c")))];
+            let mut name = "undefined_edge";
+            if rng.chance(1, 2) {
+                v.push(stmt(StmtKind::Edge(GExpr::var("fault_a"), GExpr::var("fault_c"))));
+                v.push(stmt(StmtKind::AttrEdge(GExpr::var("fault_a"), GExpr::var("fault_c"), vec![GAttr { name: "fault".into(), value: Some(GExpr::Int(1)) }])));
+                name = "undefined_edge_next_to_existing_edges";
+            }
+            if rng.chance(1, 2) {
+                v.push(stmt(StmtKind::Edge(GExpr::var("fault_a"), GExpr::var("fault_0"))));
+                name = "undefined_edge_next_to_existing_edges";
+            }
+            v.push(stmt(StmtKind::AttrEdge(GExpr::var("fault_a"), GExpr::var("fault_b"), vec![GAttr { name: "fault".into(), value: Some(GExpr::Int(2)) }])));
+            (v, name)
+        }
         5 => (
             vec![stmt(StmtKind::Let(GVar::u("fault_v"), GExpr::call("eq", vec![GExpr::Int(1), GExpr::str("1")])))],
             "eq_different_types",
